@@ -109,6 +109,21 @@ def violation(prop, part, signature, cls, case, expected, observed, order=0):
     }
 
 
+def ordkey(o):
+    """Total order over the heterogeneous `order` values of violation records (ints before strings)."""
+    if not isinstance(o, (list, tuple)):
+        o = (o,)
+    out = []
+    for x in o:
+        if isinstance(x, (list, tuple)):
+            out.extend(ordkey(x))
+        elif isinstance(x, (int, float)) and not isinstance(x, bool):
+            out.append((0, x, ""))
+        else:
+            out.append((1, 0, str(x)))
+    return tuple(out)
+
+
 def exc_name(e: BaseException) -> str:
     return type(e).__name__
 
@@ -181,8 +196,8 @@ class Run:
         cur = [x for x in self.violations if x["signature"] == sig]
         if not cur:
             self.violations.append(v)
-        elif (v["order"], json.dumps(v["case"], sort_keys=True)) < (
-            cur[0]["order"],
+        elif (ordkey(v["order"]), json.dumps(v["case"], sort_keys=True)) < (
+            ordkey(cur[0]["order"]),
             json.dumps(cur[0]["case"], sort_keys=True),
         ):
             self.violations.remove(cur[0])
@@ -432,7 +447,7 @@ class Acc:
         sig = v["signature"]
         self.sig_counts[sig] = self.sig_counts.get(sig, 0) + 1
         cur = self.violations.get(sig)
-        if cur is None or v["order"] < cur["order"]:
+        if cur is None or ordkey(v["order"]) < ordkey(cur["order"]):
             self.violations[sig] = v
 
     def result(self):
